@@ -162,6 +162,8 @@ class PtgCheck(Check):
             info["end"] = "timeout"
         elif rc != 0 and (info["end"] is None or info["end"] == "rc=0"):
             info["end"] = "crash-rc=%d" % rc
+        elif info["end"] is not None and info["end"].startswith("rc=signal-"):
+            info["end"] = "crash-" + info["end"][3:]          # the driver's handler dumped the log before dying
         elif info["end"] is None:
             info["end"] = "no-END"
         info["stderr"] = e[-1500:]
